@@ -24,6 +24,7 @@ from __future__ import annotations
 
 import itertools
 import logging
+import re
 from collections import deque
 from typing import TYPE_CHECKING, MutableSequence, Iterable, Any
 
@@ -203,10 +204,9 @@ def singleline_string_literal(string: str) -> str:
 
 def multiline_string_literal(string: str) -> str:
     string = str(string)[3:-3]
-    all_lines = string.splitlines()
-    if string.endswith(("\n", "\r")):
-        # splitlines() does not report the (empty) last line after a trailing line break.
-        all_lines.append("")
+    # Not splitlines(): it also splits on characters like U+2028 or \x0b that are ordinary string content, and it
+    # does not report the (empty) last line after a trailing line break.
+    all_lines = re.split(r"\r\n|\r|\n", string)
     lines: list[str] = []
     last_line = ""
 
